@@ -486,7 +486,7 @@ var c07Templates = []func(g *Gen, run func(Op) bool){
 
 // ---------------------------------------------------------------- C08
 
-var c08Weights = baseWeights.with(Weights{"create": 16, "nfttransfer": 18, "multi": 14, "deliver": 22, "adduri": 8, "update": 8, "setrole": 12, "addq": 3, "nftburn": 2,
+var c08Weights = baseWeights.with(Weights{"plant": 4, "payable": 5, "create": 16, "nfttransfer": 18, "multi": 14, "deliver": 22, "adduri": 8, "update": 8, "setrole": 12, "addq": 3, "nftburn": 2,
 	"transfer": 2, "mint": 1, "localburn": 1, "burn": 1, "skv": 0, "gas": 0, "epoch": 0, "changeowner": 0, "claim": 0, "setusername": 0})
 
 func metaPattern(m *RefMeta) string {
